@@ -47,10 +47,10 @@ def model_checks(ctx):
     benign = ('Sels({NONE, 1}, {AllReq, [all |-> FALSE, ids |-> <<2, 6>>], [all |-> FALSE, ids |-> <<4, 14>>]}, '
               '{AllReq, [all |-> FALSE, ids |-> <<2, 7, 0, 1>>]}, %s)' % both)
     benign_small = 'Sels({NONE}, {AllReq, [all |-> FALSE, ids |-> <<2, 6>>]}, {AllReq}, %s)' % both
-    every_list = ('(Sels({NONE, 1}, {AllReq}, Reqs(%s), %s) \\cup Sels({NONE}, Reqs(%s), {AllReq}, {"count"}) \\cup '
+    every_list = ('(Sels({1}, {AllReq}, Reqs(%s), %s) \\cup Sels({NONE}, Reqs(%s), {AllReq}, {"count"}) \\cup '
                   'Sels({NONE}, Reqs({<<6, 2>>, <<4>>, <<14, 6, 4>>}), Reqs({<<1>>, <<2, 0>>, <<7, 2>>}), %s))'
                   % (lc, both, lz, both))
-    hard = ('Sels({NONE, 1}, {AllReq, [all |-> FALSE, ids |-> <<6, 2>>]}, '
+    hard = ('Sels({1}, {AllReq, [all |-> FALSE, ids |-> <<6, 2>>]}, '
             '{AllReq, [all |-> FALSE, ids |-> <<2>>], [all |-> FALSE, ids |-> <<1, 0>>]}, {"percentage"})')
     s3d = ('Sels({NONE, 2}, {AllReq, [all |-> FALSE, ids |-> <<4>>]}, {AllReq, [all |-> FALSE, ids |-> <<3>>], '
            '[all |-> FALSE, ids |-> <<3, 9, 5>>]}, {"mean", "max", "min", "sum", "std", "var", "count"})')
@@ -73,9 +73,9 @@ def model_checks(ctx):
     mc(ctx, "fixed_every_list_n2", 2, "AllRasters2D(2, %s, %s)" % (za, va), every_list, variant=FIXED)
     if thorough:
         mc(ctx, "asis_benign_n4", 2, "AllRasters2D(4, %s, %s)" % (za, va),
-           'Sels({NONE, 1}, {AllReq, [all |-> FALSE, ids |-> <<2, 6>>]}, {AllReq, [all |-> FALSE, ids |-> <<2, 7, 0, 1>>]}, %s)'
+           'Sels({1}, {AllReq, [all |-> FALSE, ids |-> <<2, 6>>]}, {AllReq, [all |-> FALSE, ids |-> <<2, 7, 0, 1>>]}, %s)'
            % both)
-        mc(ctx, "fixed_every_list_n3", 2, "AllRasters2D(3, %s, %s)" % (za, va), every_list, variant=FIXED)
+        mc(ctx, "fixed_every_list_n3", 2, "AllRasters2D(3, {2, 4, 6}, %s)" % va, every_list, variant=FIXED)
         mc(ctx, "fixed_multiset6", 2,
            "MultisetRasters2D(6, %s, %s, <<4, 1, 5, 2, 6, 3>>)" % (U.tla_seq(ZC), U.tla_seq(VC)), hard, variant=FIXED)
         mc(ctx, "asis_3d_n3", 3, "AllRasters3D(3, {2, 4}, {0, 2, NAN})", s3d, cats="<<5, 3>>")
